@@ -137,8 +137,9 @@ def jobs(tier, seed, excluded=()):
         names = _names(tid)
         n = len(names)
         # partition on the first line's name to spread over the cores
-        groups = [list(range(i, n, 10)) for i in range(10)] if tier == "quick" else [[i] for i in range(n)]
-        for gi, g in enumerate(groups):
+        # (thorough: three lines, the names of the first two fixed per job; the job cap keeps a seeded selection)
+        groups = [(list(range(i, n, 10)), None) for i in range(10)] if tier == "quick" else [([i], i2) for i in range(n) for i2 in range(n)]
+        for gi, (g, second) in enumerate(groups):
             if not g:
                 continue
             params, pre = [], []
@@ -146,10 +147,12 @@ def jobs(tier, seed, excluded=()):
                 params += [("n%d" % j, "int"), ("f%d" % j, "int"), ("v%d" % j, "int")]
                 if j == 0:
                     pre.append("n0 in %r and 0 <= f0 <= 1 and 0 <= v0 <= 1" % (tuple(g),))
+                elif j == 1 and second is not None:
+                    pre.append("n1 == %d and 0 <= f1 <= 1 and 0 <= v1 <= 1" % second)
                 else:
                     pre.append("0 <= n%d < %d and 0 <= f%d <= 1 and 0 <= v%d <= 1" % (j, n, j, j))
-            smp = [[x for j in range(nl) for x in ((rng.choice(g) if j == 0 else rng.randrange(n)), rng.randint(0, 1), rng.randint(0, 1))] for _ in range(3)]
-            out.append(Job("C11", "C11-%s-alias-g%d" % (tid, gi), "vk.props.c11", "alias", {"tree": tid, "nlines": nl}, params, " and ".join(pre), timeout=150 if tier == "quick" else 500, samples=smp, tree=tid))
+            smp = [[x for j in range(nl) for x in ((rng.choice(g) if j == 0 else (second if (j == 1 and second is not None) else rng.randrange(n))), rng.randint(0, 1), rng.randint(0, 1))] for _ in range(3)]
+            out.append(Job("C11", "C11-%s-alias-g%d" % (tid, gi), "vk.props.c11", "alias", {"tree": tid, "nlines": nl}, params, " and ".join(pre), timeout=150 if tier == "quick" else 300, samples=smp, tree=tid))
     dom = Dom(int_max=9, int_cands=["-3"], str_mode="cand", str_cands=["", 'q"t', "x y"], hex_cands=["0x1f", "1f"], float_cands=["5"])
     out += state_jobs("C11", "vk.props.c11", "block", ["T13", "T13b"], dom, 50, 2, 120, rng, tag="block")
     return out
